@@ -36,13 +36,13 @@ def plan_hash(plan: dict) -> str:
 CRASH_FAMILY = ("C09", "C10", "C11", "C12")
 
 
-def build_plan(prop: str, seed: int, root: str):
+def build_plan(prop: str, seed: int, root: str, force: dict | None = None):
     """Two-step construction.  Returns (plan, ctl)."""
     rng = random.Random(seed)
     if prop in CRASH_FAMILY:
         from . import gen_crash
 
-        return gen_crash.build(prop, rng, seed, root)
+        return gen_crash.build(prop, rng, seed, root, force)
     if prop == "C08":
         from . import gen_calls
 
@@ -70,14 +70,19 @@ def evaluate(prop: str, plan: dict, run, ctl):
     raise HarnessError(f"no oracle for {prop}")
 
 
-def run_case(prop: str, seed: int, explicit_plan: dict | None = None, keep_hist: bool = False) -> dict:
+def run_case_forced(prop: str, seed: int, force: dict) -> dict:
+    """A case whose world is partly prescribed (grid phases)."""
+    return run_case(prop, seed, None, False, force)
+
+
+def run_case(prop: str, seed: int, explicit_plan: dict | None = None, keep_hist: bool = False, force: dict | None = None) -> dict:
     """Execute one case.  Never raises: harness problems are reported as such."""
     t0 = time.time()
     root = scratch_root()
     res = {"prop": prop, "seed": seed, "verdict": "pass", "violations": [], "stats": {}, "checks": {}, "probes": {}}
     try:
         if explicit_plan is None:
-            plan, ctl = build_plan(prop, seed, root)
+            plan, ctl = build_plan(prop, seed, root, force)
         else:
             plan = explicit_plan
             ctl = Q.run_control(plan["world"], plan["Tmax"], root) if plan.get("Tmax") else None
